@@ -36,9 +36,11 @@ ViewChecks(HY, e) ==
                 { RDay(r) : r \in HY } \subseteq { e.days[i][1] : i \in 1..Len(e.days) })
           + SumSeq(e.months, LAMBDA x :
               IF x[2] # 0 THEN Chk("C14.byMonth.panic", x[1], FALSE)
-              ELSE Chk("C14.byMonth", << x[1], Len(x[3]) >>, [i \in 1..Len(x[3]) |-> R4(x[3][i])] = ByMonth(HY, x[1])))
+              ELSE Chk("C14.byMonth", << x[1], Len(x[3]) >>, [i \in 1..Len(x[3]) |-> R4(x[3][i])] = ByMonth(HY, x[1]))
+                   + (IF Len(x) >= 5 THEN Chk("C14.byMonth.string-form", << x[1], Len(x[4]), Len(x[5]) >>, x[4] = x[3] /\ x[5] = x[3]) ELSE 0))
           + (IF e.year[1] # 0 THEN Chk("C14.byYear.panic", y, FALSE)
-             ELSE Chk("C14.byYear", << y, Len(e.year[2]) >>, [i \in 1..Len(e.year[2]) |-> R4(e.year[2][i])] = ByYear(HY, y)))
+             ELSE Chk("C14.byYear", << y, Len(e.year[2]) >>, [i \in 1..Len(e.year[2]) |-> R4(e.year[2][i])] = ByYear(HY, y))
+                  + (IF Len(e.year) >= 3 THEN Chk("C14.byYear.string-form", << y, Len(e.year[3]) >>, e.year[3] = e.year[2]) ELSE 0))
 C14Views ==
   /\ IsEv("C14Views")
   /\ LET e == Trace[l] IN Consume(ViewChecks({ r \in hol : RDay(r) \div 10000 = e.y }, e))
